@@ -784,6 +784,8 @@ def run_c12(tier):
     # beyond the listed clauses: the graph bookkeeping itself, spec -> code (GraphOps.tla)
     from . import graphops
     graphops.run_graphops(check, tier)
+    from . import fraglib
+    fraglib.run_fraglib(check, tier)
     from . import history
     history.run_histories(check, tier, ["X_Behaviour", "C12_Function", "C12_LibraryUntouched"])
     return check.finish()
